@@ -309,8 +309,8 @@ Proof.
       - rewrite P_mech0 in H. inversion H; subst; auto.
       - destruct H; discriminate. }
   destruct (is_empty (firstn (N.to_nat i) d) || is_empty (skipn (N.to_nat j) d)); [eapply MechPre_rejected; eauto|].
-  destruct (is_empty (sha1_compute_hash e id (a_challenge a) (firstn (N.to_nat i) d))); [eapply MechPre_rejected; eauto|].
-  destruct (negb (bytes_eqb (skipn (N.to_nat j) d) (sha1_compute_hash e id (a_challenge a) (firstn (N.to_nat i) d))));
+  destruct (is_empty (sha1_compute_hash e (a_nchal a - 1) id (a_challenge a) (firstn (N.to_nat i) d))); [eapply MechPre_rejected; eauto|].
+  destruct (negb (bytes_eqb (skipn (N.to_nat j) d) (sha1_compute_hash e (a_nchal a - 1) id (a_challenge a) (firstn (N.to_nat i) d))));
     [eapply MechPre_rejected; eauto|].
   destruct P. fs. eapply Inv_intro_begin with (m := COOKIE_SHA1); fs; auto.
   rewrite P_auth0, Hd. unfold established, add_pid_from, add_credentials, or_else, creds_empty. cbn [c_uid c_pid c_gids].
